@@ -58,6 +58,19 @@ func init() {
 		Assumptions: []string{"mockstore transactions are atomic steps (no yield while its lock is held); interleavings inside transactions are explored on badgerstore with the keylock stub"},
 	})
 	addCheck(&CheckSpec{
+		Property: "C13", Level: "exploration", OwnsPanics: true,
+		Rule:   "index scenario: badgerstore + QueryStore with two indexes on real BadgerDB (prefix empty or set); 1-3 mutator goroutines create/update/delete values whose keys come from a small printable alphabet (including unindexed nil keys, keys that are prefixes of each other, ids of different lengths); the real taskqueue index worker is parked at the start of each index task and after its commit; in query rounds every mutator is frozen between transactions while the index worker stays schedulable, and a query task calls Flush() then Query for generated (index, prefix incl. separator bytes, filter, offset, limit incl. negative and zero, reverse).",
+		Oracle: "result equals the reference: ids of the model values whose key has the prefix and passes the filter, sorted bytewise by (key, id), reversed if asked, then windowed; exact because the mutators are frozen.",
+		Scen:   []ScenBudget{{"index", 2500, 100000}},
+		Assumptions: []string{"index keys never contain the separator byte 0x00 (prefixes do)"},
+	})
+	addCheck(&CheckSpec{
+		Property: "C14", Level: "exploration",
+		Rule:   "index scenario (store layer): as C13 plus an OnQueryChange recorder evaluating queries and QueryChange.Events for generated queries inside the callback, on the index worker.",
+		Oracle: "exactly one query-change callback per mutation that changes some index key and none otherwise, per id in mutation order, after the mutation; inside the callback a query for the new key already returns the id and for the old key no longer does; Events(q) reports affected whenever the reference result of q differs between the index state before and after the update, and unaffected whenever neither old nor new key matches q's prefix and filter.",
+		Scen:   []ScenBudget{{"index", 2500, 100000}},
+	})
+	addCheck(&CheckSpec{
 		Property: "C07", Level: "exploration",
 		Rule:   "transport monitor on every Publish of the requests and core scenarios: results/models/collections/event payloads that are nil, nested, need escaping or cannot be marshalled; every meta combination on HTTP and non-HTTP requests; marshal failures and publish errors as injected faults.",
 		Oracle: "independent validator written from the RES protocol text: subject is a publishable NATS subject of a documented form (reply inbox handed out by the peer, event.<rid>.<name>, system.reset, system.tokenReset, conn.<cid>.token); payload has the documented shape for its kind (response with exactly one of result/resource/error, error with string code and message, meta only for HTTP requests, pre-response timeout:\"<ms>\", per-event fields).",
